@@ -30,9 +30,18 @@ RdMX == {<< <<N(<<"mail">>)>>, <<10>> >>, << <<<<"mx", "other">>>>, <<20>> >>, <
 RdNSEC == {<< <<N(<<"b", "a">>)>>, <<1, 15>> >>, << <<N(<<>>)>>, <<2, 6, 47>> >>}
 RdUNK == {<< <<>>, <<1, 2, 3>> >>, << <<>>, <<>> >>, << <<>>, <<255, 0, 34, 92>> >>}
 
-RdOf(ty) == CASE ty = "SOA" -> RdSOA [] ty = "NS" -> RdNS [] ty = "A" -> RdA [] ty = "CNAME" -> RdCNAME
+\* DNSKEY / KEY data = <<flags, protocol, algorithm, key octets...>>
+RdDNSKEY == {<< <<>>, <<256, 3, 8, 1, 2, 3, 4, 5>> >>, << <<>>, <<257, 3, 13, 200, 0, 255>> >>}
+RdKEY == {<< <<>>, <<256, 3, 8, 9, 9>> >>}
+\* RRSIG data = <<type covered, algorithm, labels, original TTL, expiration, inception, key tag, signature octets...>>, names = <<signer>>
+Sig(cov, tag) == << <<N(<<>>)>>, <<cov, 8, 2, 300, 1893456000, 1577836800, tag, 1, 2, 3, 4, 5, 6, 250>> >>
+RdOf(ty) == CASE ty = "DNSKEY" -> RdDNSKEY [] ty = "KEY" -> RdKEY
+              [] ty = "RRSIG/A" -> {Sig(1, 11)} [] ty = "RRSIG/DNSKEY" -> {Sig(48, 12)}
+              [] ty = "RRSIG/CNAME" -> {Sig(5, 13)} [] ty = "RRSIG/NSEC" -> {Sig(47, 14)}
+              [] ty = "SOA" -> RdSOA [] ty = "NS" -> RdNS [] ty = "A" -> RdA [] ty = "CNAME" -> RdCNAME
               [] ty = "TXT" -> RdTXT [] ty = "MX" -> RdMX [] ty = "NSEC" -> RdNSEC [] ty = "TYPE65280" -> RdUNK
-UTypes == {"SOA", "NS", "A", "CNAME", "TXT", "MX", "NSEC", "TYPE65280"}
+UTypes == {"SOA", "NS", "A", "CNAME", "TXT", "MX", "NSEC", "TYPE65280",
+           "DNSKEY", "KEY", "RRSIG/A", "RRSIG/DNSKEY", "RRSIG/CNAME", "RRSIG/NSEC"}
 
 ZoneOf(recs) == ZoneOfRecs(recs)
 
@@ -73,7 +82,15 @@ ZG2 == ZoneOf({<< <<"h01", "a">>, "CNAME", 5, << <<N(<<"t0a">>)>>, <<>> >> >>,
                << <<"a">>, "A", 5, A1 >>})
 \* TTL 0 (with default_ttl = 0 the writer must still emit "$TTL 0")
 Z6 == ZoneOf({<< <<>>, "NS", 300, NS1 >>, << <<"a">>, "A", 0, A1 >>, << <<"a">>, "A", 0, A2 >>, << <<"b", "a">>, "TXT", 0, TXq >>})
-Curated == {Z1, Z2, Z3, Z4, Z5, Z6, ZG, ZG2}
+\* DNSSEC families: everything that may sit beside a CNAME, and DNSKEY / RRSIG rdatasets
+KEY1 == << <<>>, <<256, 3, 8, 9, 9>> >>
+DK1 == << <<>>, <<256, 3, 8, 1, 2, 3, 4, 5>> >>
+DK2 == << <<>>, <<257, 3, 13, 200, 0, 255>> >>
+Z7 == ZoneOf({<< <<"a">>, "CNAME", 300, CN1 >>, << <<"a">>, "RRSIG/CNAME", 300, Sig(5, 13) >>, << <<"a">>, "KEY", 300, KEY1 >>,
+              << <<"a">>, "NSEC", 300, NSEC1 >>, << <<"a">>, "RRSIG/NSEC", 300, Sig(47, 14) >>})
+Z8 == ZoneOf({<< <<>>, "DNSKEY", 600, DK1 >>, << <<>>, "DNSKEY", 600, DK2 >>, << <<>>, "RRSIG/DNSKEY", 600, Sig(48, 12) >>,
+              << <<"b", "a">>, "A", 5, A1 >>, << <<"b", "a">>, "RRSIG/A", 5, Sig(1, 11) >>})
+Curated == {Z1, Z2, Z3, Z4, Z5, Z6, Z7, Z8, ZG, ZG2}
 
 AllRecs == UNION {{<<o, ty, t, rd>> : o \in (IF ty = "SOA" THEN {<<>>} ELSE Owners), t \in UTTLs, rd \in RdOf(ty)} : ty \in UTypes}
 Singles == {ZoneOf({r}) : r \in AllRecs}
